@@ -491,6 +491,18 @@ def replay_file(path, root):
         return 1
     inst = next(i for i in c.instances if i.label == d["instance"])
     pb = import_repo(root)
+    if isinstance(rep["inputs"], dict) and set(rep["inputs"]) == {"first", "second"}:
+        # Dask task-name rule: the same two concrete inputs, computed together and apart
+        import numpy as np
+        import dask
+        from .concrete import real_result
+        r1 = real_result(interp, c, inst, ConcNamer(parse_model(rep["inputs"]["first"])), pb)
+        r2 = real_result(interp, c, inst, ConcNamer(parse_model(rep["inputs"]["second"])), pb)
+        a1, a2 = getattr(r1, "data", r1), getattr(r2, "data", r2)
+        g1, g2 = dask.compute(a1, a2, scheduler="synchronous")
+        same = np.array_equal(g1, a1.compute(scheduler="synchronous"), equal_nan=True) and np.array_equal(g2, a2.compute(scheduler="synchronous"), equal_nan=True)
+        print(json.dumps({"status": "ok" if same else "mismatch", "checked": "dask.compute(r1, r2) == (r1.compute(), r2.compute())"}, indent=1))
+        return 0 if same else 1
     nm = ConcNamer(parse_model(rep["inputs"]))
     r = differential(interp, c, inst, nm, pb)
     print(json.dumps(r, indent=1, default=str))
